@@ -27,6 +27,15 @@ def plan(tier, seed, kf_ids):
     for c in ([(1 << 32) - 256] if q else [0, one - 128, (1 << 32) - 256, 1 << 20, 1 << 30]):
         jobs.append(acc.sqrt_job("c13", "U9F23", "U9F23", c, 8, c > (1 << (F - 8)) + 512, 30))
     # 64-bit type: single operands and 2^2-neighbourhoods (the 32 dependent 128-bit divisions only fold for (nearly) concrete operands)
+    # single operands (k = 0) are constants that the solver's front end folds in seconds: witnesses on the wide types, not
+    # universally quantified obligations
+    for al, x in (("I32F32", 7.5e7), ("I32F32", 5 * 2.0 ** -32), ("I32F32", 0.3), ("I16F48", 1000.5), ("I16F48", 2.0 ** 15 - 0.25)):
+        jobs.append(acc.sqrt_job("c13", al, al, int(x * (1 << T.TYPES[al][2])), 0, True, 60, timeout=600))
+        jobs[-1].prio = 1
+    for (sa, da, x) in (("I9F23", "I32F32", 0.6), ("I9F23", "I32F32", 2.0 ** -10), ("I9F23", "I32F32", 200.7), ("I32F32", "I64F64", 0.75), ("U9F23", "U32F32", 0.3)):
+        fsrc = T.TYPES[sa][2]
+        jobs.append(acc.acc1("c13", "sqrt", sa, da, int(x * (1 << fsrc)), 0, 4, 0, True, 80, timeout=600, tag="to_%s_c%d" % (da.lower(), int(x * (1 << fsrc)))))
+        jobs[-1].prio = 1
     for x, k in ((1e9, 0), (2.0 ** 31 - 1, 0)) if q else ((1e9, 0), (1e9, 2), (7.5e7, 2), (2.0 ** 30, 0), (2.0 ** 31 - 1, 0), (3.0, 2), (2.0 ** -20, 0), (1e-9, 0), (12345.678, 2)):
         jobs.append(acc.sqrt_job("c13", "I32F32", "I32F32", int(x * (1 << 32)), k, True, 40, timeout=1800))
         jobs[-1].prio = 1
